@@ -122,3 +122,23 @@ def first_diff(a, b):
         return None
     idx = tuple(int(i) for i in np.argwhere(bad)[0])
     return dict(index=list(idx), a=float(a[idx]), b=float(b[idx]), n_diff=int(bad.sum()))
+
+
+def pick_block_mem(src_fn, ref_fn, proc_crs, target_blocks, kernel_shape=(5, 5), jitter=1.1):
+    """max_block_mem giving about ``target_blocks`` blocks that block_pairs accepts with the kernel's overlap
+    (falls back to fewer blocks); returns (max_block_mem, number of blocks per band)."""
+    from homonim.raster_pair import RasterPairReader
+    from homonim.enums import ProcCrs
+    from homonim import utils, errors
+    ov = utils.overlap_for_kernel(kernel_shape)
+    t = target_blocks
+    while True:
+        mbm = block_mem_for(src_fn, ref_fn, proc_crs, t, jitter) if t > 1 else 1e6
+        try:
+            with RasterPairReader(src_fn, ref_fn, proc_crs=ProcCrs(proc_crs)) as rd:
+                n = len(list(rd.block_pairs(overlap=ov, max_block_mem=mbm))) // max(1, len(rd.src_bands))
+            return mbm, n
+        except errors.BlockSizeError:
+            if t <= 1:
+                raise
+            t = max(1, t // 2)
